@@ -536,7 +536,9 @@ static int run(const uint8_t *tp_, size_t len_, struct vp_report *rep, unsigned 
 
     /* ---- the stream ---- */
     if (kind <= 3 || kind == 5) {
+        g265_bad_counts = kind == 5 && (b0 & 0x40);
         if (h265) g265_stream(&es, &t); else g264_stream(&es, &t);
+        g265_bad_counts = false;
     } else if (seed) {
         { uint8_t v = tp_u8(&t) % 8; ncopies = v < 5 ? 1 : v < 7 ? 2 : 3; }
         for (int c = 0; c < ncopies; c++) {
